@@ -87,6 +87,9 @@ def pairs(ctx, n, btypes=("app", "app", "card", "cum", "ord")):
     rng = ctx.rng
     for _ in range(n):
         case = core.gen_election(rng, btypes=btypes, m_lo=1)
+        big = rng.random() < 0.25
+        if big:
+            case = core.gen_big_election(rng, btypes=btypes)
         cfg = rulegen.gen_rule_cfg(rng, case, rules=("mes",), allow_refuse=False)
         if not cfg["res"] and len(case.projects) > 5:
             cfg["res"] = True
